@@ -116,7 +116,7 @@ impl Property for C19 {
         "inputs = the generated sources, mutated sources and mutated mapfiles of C04 (most of which produce one or more warnings / errors) and the valid generated sources of C01; each command (compile with --output-debug-info, then decompile of the produced file (with the mapfile, if any)) is run 3 times as a fresh process of the real truth-core binary built from the current tree: exit status, stdout, stderr, output file and debug-info file must be byte-identical across the runs. non-trivial = the command printed at least one diagnostic, or produced an output file that was then decompiled"
     }
     fn tape_len(&self, tier: Tier) -> usize { tier.pick(300, 500) }
-    fn cases(&self, tier: Tier) -> u32 { tier.pick(10_000, 300_000) }
+    fn cases(&self, tier: Tier) -> u32 { tier.pick(10_000, 120_000) }
     fn required_labels(&self, _tier: Tier) -> Vec<&'static str> { vec!["mode:cli", "mode:threads", "threads:hash-seeds-differ", "compile:ok", "compile:failed", "diagnostics:>=2", "competing", "decompile-compared", "debug-info-compared", "mapfile", "fmt:anm", "fmt:std", "fmt:msg", "fmt:ecl"] }
     fn max_discard_fraction(&self) -> f64 { 0.05 }
 
